@@ -12,9 +12,8 @@
                                                              [e |-> "D", n]  batch n returned   [e |-> "R"] result returned
                                                              [e |-> "S"]     stream ended       [e |-> "E"] error raised
                                                              [e |-> "H"]     the call returned a session carrying the header
-                                                             [e |-> "Q"]     the caller left the session (close() / cancel() /
-                                                                             leaving the `with` block returned) and that exit
-                                                                             read the output stream to its end
+                                                             [e |-> "Q"]     the caller left the session: close() / cancel() /
+                                                                             leaving the `with` block returned
 
    The operators are the invariants of LogOrder.tla and the judge of recorded real executions.                    *)
 EXTENDS Naturals, Sequences, FiniteSets
@@ -42,8 +41,8 @@ DeliveredBeforeOutcome(em, rv) ==      \* when a result / header / batch / end /
      (rv[i].e \in {"D", "R", "S", "E", "H"} /\ Pos(em, rv[i]) # 0) =>
         \A q \in 1..(Pos(em, rv[i]) - 1) : em[q].e = "l" => \E j \in 1..(i - 1) : rv[j].e = "L" /\ rv[j].n = em[q].n
 DeliveredByEndOfStream(em, rv) ==      \* a message that is followed by no further batch (logged after the last batch the
-  \A i \in 1..Len(rv) : rv[i].e = "Q" =>   \* caller took, or while the caller leaves) is still "emitted during the call": once the
-     \A p \in 1..Len(em) : em[p].e = "l" =>  \* exit has read the stream to its end, every emitted message has been delivered
+  \A i \in 1..Len(rv) : rv[i].e = "Q" =>   \* caller took) is still "emitted during the call": once the caller has left the
+     \A p \in 1..Len(em) : em[p].e = "l" =>  \* session, every message emitted during the call has been delivered
         \E j \in 1..(i - 1) : rv[j].e = "L" /\ rv[j].n = em[p].n
 ContentPreserved(em, rv) ==            \* level, text, extra fields arrive as emitted
   \A i \in 1..Len(rv) : rv[i].e = "L" => rv[i].c = "intact"
